@@ -69,6 +69,18 @@ def _run(ctx, prop_mod, replay):
             stats = prop_mod.run(ctx)
         except Exception:
             broken.append(("check crashed", traceback.format_exc()))
+    # 2b. thorough tier: independent re-check of the compiled proofs, kernel-side evaluation of a sample
+    extra = {}
+    if ctx.tier == "thorough" and not broken:
+        try:
+            extra.update(core.coqchk(prop_id))
+            if extra.get("coqchk_rc") != 0 or extra.get("coqchk_axioms") not in ("<none>",):
+                broken.append(("coqchk does not accept Properties/%s.vo without axioms" % prop_id, json.dumps(extra)))
+            extra.update(core.vm_crosscheck(ctx))
+            if extra.get("vm_compute_mismatches", 0) != 0:
+                broken.append(("vm_compute of the model disagrees with the extracted driver on this run's cases", json.dumps(extra)))
+        except Exception:
+            broken.append(("thorough-tier cross-check crashed", traceback.format_exc()))
     # 3. verdict
     known = core.load_known()
     reported = 0
@@ -111,6 +123,7 @@ def _run(ctx, prop_mod, replay):
     }
     if stats:
         cov.update(stats)
+    cov.update(extra)
     cov.setdefault("evaluations", 0)
     cov.setdefault("distinct_nontrivial", 0)
     cov.setdefault("rule", "")
